@@ -73,6 +73,13 @@ func TestVerifC16(t *testing.T) {
 		c16TimeDimension(out, thorough)
 	}()
 
+	// the history of one long-lived listener: hundreds of failed handshakes of every kind, then a matching pair
+	bg.Add(1)
+	go func() {
+		defer bg.Done()
+		c16Histories(out, vlib.NewRand("C16-histories"), thorough)
+	}()
+
 	var timing []string
 	timed := func(name string, f func()) {
 		t0 := time.Now()
@@ -182,7 +189,7 @@ func c16Replay(t *testing.T, out *vlib.Out, path string) {
 	}
 	for _, line := range strings.Split(string(b), "\n") {
 		f := strings.Split(line, "|")
-		if c16ReplayTime(out, line) || c16ReplaySecrets(out, line) {
+		if c16ReplayTime(out, line) || c16ReplaySecrets(out, line) || c16ReplayHistory(out, line) {
 			continue
 		}
 		switch {
